@@ -146,9 +146,10 @@ package iam
 //@   assume-benign
 
 //@ func (Wrapper).s2sNonceStore
-//@   prop C02
+//@   prop C02 C05
 //@   assume-benign
 //@   ensures !isNilIface(result)
+//@   call (storage.SessionDatabase).GetStore #1 requires [nonce-marks-outlive-the-presentation] int64(arg(1)) >= int64(s2sMaxPresentationValidity) + int64(s2sMaxClockSkew)
 
 // The nonce is stored on every path that read it (burned regardless of the outcome), and success means it was not seen before.
 //@ func (Wrapper).validateS2SPresentationNonce
@@ -160,6 +161,7 @@ package iam
 //@   ensures [always-burned] ret(call extractNonce #1).0 != "" ==> did(call (storage.SessionStore).Put #1) && arg(call (storage.SessionStore).Put #1, 1) == ret(call extractNonce #1).0
 //@   ensures [store-failure-is-reported] did(call (storage.SessionStore).Put #1) && !isNilIface(ret(call (storage.SessionStore).Put #1)) ==> !isNilIface(result)
 //@   ensures [check-and-mark-are-one-step] isNilIface(result) ==> did(call (*sync.Mutex).Lock #1) || did(call (sync.Locker).Lock #1)
+//@   call (storage.SessionStore).Put #1 requires [nonce-kept-for-the-presentation-lifetime] arg(0) == ret(call (Wrapper).s2sNonceStore #2) && len(arg(3)) == 0
 
 //@ func extractNonce
 //@   prop C02 C19
@@ -342,6 +344,10 @@ package iam
 //@   prop C05
 //@   assume-benign
 //@   ensures !isNilIface(result)
+//@   call (storage.SessionDatabase).GetStore #1 requires [jti-marks-outlive-the-access-token] int64(arg(1)) >= int64(accessTokenValidity)
+//@ func storage.WithTTL
+//@   trusted
+//@   benign
 //@ func (JAR).Sign
 //@   trusted
 //@   benign
@@ -365,6 +371,11 @@ package iam
 //@        && arg(call (storage.SessionStore).Put #1, 1) == arg(call (storage.SessionStore).Get #1, 1)
 //@   ensures [check-and-mark-are-one-step] isNilIface(result.1) && typeOf(result.0) == ValidateDPoPProof200JSONResponse && result.0.(ValidateDPoPProof200JSONResponse).Valid ==>
 //@        did(call (*sync.Mutex).Lock #1) || did(call (sync.Locker).Lock #1)
+// The mark is kept for the store's own lifetime (which covers the access token the proof is bound to)
+// or an explicit one that is at least as long; never a shorter / data-derived one (Put with a
+// lifetime <= 0 stores nothing and still returns nil).
+//@   call (storage.SessionStore).Put #1 requires [jti-kept-for-the-access-token-lifetime] arg(0) == ret(call (Wrapper).useNonceOnceStore #2)
+//@        && ( len(arg(3)) == 0 || (len(arg(3)) == 1 && did(call storage.WithTTL #1) && int64(arg(call storage.WithTTL #1, 0)) >= int64(accessTokenValidity)) )
 
 // ---- C02: what is written on the wire ----
 // Both response types are defined types of the generated response structs and lose their generated
